@@ -571,6 +571,16 @@ impl Net {
                 io.fail_at(io.seq() + n, errno.parse().ok()?);
                 Some("ok".into())
             }
+            ["io.failaccepts", n, errno] => {
+                // the next n accept(2) calls of the process fail with errno (EMFILE = 24, ECONNABORTED = 103, ...)
+                let io = self.io.as_ref()?;
+                io.fail_accepts(n.parse().ok()?, errno.parse().ok()?);
+                Some("ok".into())
+            }
+            ["io.failedaccepts"] => Some(match &self.io {
+                Some(io) => format!("{}", io.failed_accepts()),
+                None => "no-iotrace".into(),
+            }),
             ["io.seq"] => Some(match &self.io {
                 Some(io) => format!("{}", io.seq()),
                 None => "no-iotrace".into(),
